@@ -452,12 +452,16 @@ func (self *Pipestance) RestartLocalJobs(jobMode string) error {
 		return &RuntimeError{"Pipestance is in read only mode."}
 	}
 	for _, node := range self.node.getFrontierNodes() {
-		if node.state == Running {
+		// A failed node can have jobs which were queued or running when the
+		// previous mrp died, next to the ones which failed; they are just as
+		// orphaned as those of a running node, and nothing else resets them.
+		live := node.state == Running || node.state == Failed
+		if live {
 			if err := node.restartLocallyQueuedJobs(); err != nil {
 				return err
 			}
 		}
-		if node.state == Running && (jobMode == localMode || node.local) {
+		if live && (jobMode == localMode || node.local) {
 			util.PrintInfo("runtime", "Found orphaned local stage: %s", node.GetFQName())
 			if err := node.restartLocalJobs(); err != nil {
 				return err
